@@ -19,7 +19,7 @@ GUARD = "IPHREEQC_VERIF"
 
 BASE_FLAGS = [
     "-std=c++14", "-O1", "-ffp-contract=off", "-fno-vectorize", "-fno-slp-vectorize",
-    "-fno-unroll-loops", "-fno-access-control", "-fno-discard-value-names", "-fno-inline-functions",
+    "-fno-unroll-loops", "-fno-access-control", "-fno-discard-value-names", "-finline-hint-functions",
     "-Wno-everything", "-D" + GUARD,
 ]
 
